@@ -300,6 +300,9 @@ def execute(scen):
                 return
             fired_registered = fired_registered or (c.handler in router.clients)
             faults[kind] = faults.get(kind, 0) + 1
+            # (a transient send failure still pending on this very connection is dropped: it would swallow the one write
+            # through which the server can notice that the peer is gone)
+            c.srv_transport.fail_next_write_keep = None
             c.dead = True
             dead_at[who] = len(sent_text)
             p = c.peer
